@@ -433,3 +433,151 @@ pub fn install_auth_tree(env: &Env, spec_tok: &str, tree: &Inv, wrong_root_args:
         }
     }
 }
+
+// ------------------------------------------------------------------------------------------------
+// Entry points the model does not know
+// ------------------------------------------------------------------------------------------------
+/// Names and parameter types of the functions a contract EXPORTS according to its source text: every `fn` of a
+/// `#[contractimpl] impl Trait for X` block and every `pub fn` of a `#[contractimpl] impl X` block.
+pub fn exported_fns(src_path: &str) -> Vec<(String, Vec<String>)> {
+    let src = std::fs::read_to_string(src_path).unwrap_or_default();
+    let mut out = vec![];
+    let lines: Vec<&str> = src.lines().collect();
+    let mut i = 0;
+    while i < lines.len() {
+        if lines[i].trim_start().starts_with("#[cfg(test)]") {
+            break;
+        }
+        if lines[i].trim() == "#[contractimpl]" {
+            // find the impl line
+            let mut j = i + 1;
+            while j < lines.len() && !lines[j].trim_start().starts_with("impl") {
+                j += 1;
+            }
+            if j >= lines.len() {
+                break;
+            }
+            let is_trait = lines[j].contains(" for ");
+            let mut depth: i32 = 0;
+            let mut k = j;
+            let mut started = false;
+            while k < lines.len() {
+                let l = lines[k];
+                if started && depth == 1 {
+                    let t = l.trim_start();
+                    let (is_pub, rest) = if let Some(r) = t.strip_prefix("pub fn ") { (true, Some(r)) } else if let Some(r) = t.strip_prefix("fn ") { (false, Some(r)) } else { (false, None) };
+                    if let Some(rest) = rest {
+                        if is_trait || is_pub {
+                            let name: String = rest.chars().take_while(|c| c.is_alphanumeric() || *c == '_').collect();
+                            // parameter text up to the matching ')'
+                            let mut sig = String::new();
+                            let mut m = k;
+                            loop {
+                                sig.push_str(lines[m]);
+                                sig.push(' ');
+                                if lines[m].contains('{') || lines[m].trim_end().ends_with(';') || m + 1 >= lines.len() {
+                                    break;
+                                }
+                                m += 1;
+                            }
+                            let inner = match (sig.find('('), sig.rfind(')')) {
+                                (Some(a), Some(b)) if b > a => sig[a + 1..b].to_string(),
+                                _ => String::new(),
+                            };
+                            let mut params = vec![];
+                            let mut d = 0;
+                            let mut cur = String::new();
+                            for ch in inner.chars() {
+                                match ch {
+                                    '<' | '(' => { d += 1; cur.push(ch); }
+                                    '>' | ')' => { d -= 1; cur.push(ch); }
+                                    ',' if d == 0 => { params.push(cur.clone()); cur.clear(); }
+                                    _ => cur.push(ch),
+                                }
+                            }
+                            if !cur.trim().is_empty() {
+                                params.push(cur);
+                            }
+                            let types: Vec<String> = params
+                                .iter()
+                                .filter_map(|p| p.split_once(':').map(|(n, t)| (n.trim().to_string(), t.trim().trim_start_matches('&').trim().to_string())))
+                                .filter(|(n, t)| !(n.ends_with("env") || t == "Env"))
+                                .map(|(_, t)| t)
+                                .collect();
+                            out.push((name, types));
+                        }
+                    }
+                }
+                for ch in l.chars() {
+                    if ch == '{' { depth += 1; started = true; }
+                    if ch == '}' { depth -= 1; }
+                }
+                if started && depth == 0 {
+                    break;
+                }
+                k += 1;
+            }
+            i = k;
+        }
+        i += 1;
+    }
+    out
+}
+
+/// Calls every exported function the model does not know (`known`) with NO authorisation at all and arguments drawn from the
+/// given pools. Whatever they return, nothing the model tracks may change: the generator's next queries show it.
+/// Returns the names that were probed.
+pub fn probe_unknown_entry_points(env: &Env, contract: &Address, src_path: &str, known: &[&str], addrs: &[Address], tokens: &[(Address, i128)]) -> Vec<String> {
+    use soroban_sdk::{IntoVal, Symbol, Val};
+    let mut probed = vec![];
+    for (name, types) in exported_fns(src_path) {
+        if known.contains(&name.as_str()) {
+            continue;
+        }
+        // candidate values per parameter
+        let mut cands: Vec<Vec<Val>> = vec![];
+        let mut callable = true;
+        for t in &types {
+            let t = t.replace(' ', "");
+            let vs: Vec<Val> = match t.as_str() {
+                "Address" => addrs.iter().map(|a| a.into_val(env)).collect(),
+                "Token" => tokens.iter().map(|(a, n)| axelar_soroban_std::types::Token { address: a.clone(), amount: *n }.into_val(env)).collect(),
+                "i128" => vec![1i128.into_val(env), 7i128.into_val(env)],
+                "u128" => vec![1u128.into_val(env)],
+                "u32" => vec![1u32.into_val(env)],
+                "u64" => vec![1u64.into_val(env)],
+                "bool" => vec![true.into_val(env), false.into_val(env)],
+                "String" => vec![soroban_sdk::String::from_str(env, "x").into_val(env)],
+                "Bytes" => vec![soroban_sdk::Bytes::from_slice(env, b"x").into_val(env)],
+                "BytesN<32>" => vec![soroban_sdk::BytesN::<32>::from_array(env, &[0u8; 32]).into_val(env)],
+                s if s.starts_with("Option<") => vec![().into_val(env)],
+                "()" => vec![().into_val(env)],
+                _ => {
+                    callable = false;
+                    vec![]
+                }
+            };
+            cands.push(vs);
+        }
+        probed.push(name.clone());
+        if !callable {
+            continue;
+        }
+        // a bounded walk through the product of candidates
+        let total: usize = cands.iter().map(|c| c.len().max(1)).product::<usize>().min(24);
+        for n in 0..total {
+            let mut args: soroban_sdk::Vec<Val> = soroban_sdk::Vec::new(env);
+            let mut q = n;
+            for c in &cands {
+                let k = q % c.len().max(1);
+                q /= c.len().max(1);
+                args.push_back(c[k]);
+            }
+            env.set_auths(&[]);
+            let sym = Symbol::new(env, &name);
+            let c2 = contract.clone();
+            let _ = guarded(|| env.try_invoke_contract::<Val, soroban_sdk::Error>(&c2, &sym, args.clone()));
+        }
+    }
+    probed
+}
